@@ -95,6 +95,57 @@ def run(ctx):
                     out.oracle_fail("scaffold-reverse", inp, "streaming the reversed scaffold is not the reverse complement of streaming the original", finding=fid)
 
 
+    object_histories(ctx, 150 * n)
+
+
+def object_histories(ctx, count):
+    """the same Scaffold OBJECT reversed, edited the way the builder edits scaffolds (add_row, append_scaffold, direct row
+    replacement, pop), and reversed again: every reversal must be the reversal of the rows as they are NOW"""
+    from tola.assembly.scaffold import Scaffold
+    from tola.assembly.fragment import Fragment
+    from tola.assembly.gap import Gap
+    out, rng = ctx.out, ctx.rng
+
+    def rand_row(i):
+        if rng.random() < 0.3:
+            return Gap(rng.choice([1, 10, 200]), "scaffold")
+        st = rng.randint(1, 50)
+        return Fragment(f"c{i}", st, st + rng.randint(0, 40), rng.choice([1, -1]), rng.choice([(), ("Painted",)]))
+
+    for _ in range(count):
+        sc = Scaffold("h", [rand_row(i) for i in range(rng.randint(1, 5))])
+        script, k = [], 10
+        objs = [sc]
+        for step in range(rng.randint(2, 7)):
+            target = rng.choice(objs)
+            op = rng.choice(["reverse", "reverse", "add_row", "append", "setrow", "pop"])
+            script.append(op)
+            if op == "reverse":
+                r = target.reverse()
+                want = [conv.strip_oids(conv.from_real_row(x)) for x in target.rows]
+                got = conv.canon_scaffold(conv.from_real_scaffold(r))
+                e = reverse_oracle({"rows": want}, got)
+                inp = {"script": list(script), "rows_now": want}
+                out.case("object-histories", inp, ("hist", tuple(script)))
+                if e:
+                    out.oracle_fail("object-histories", inp, "reversal of an edited scaffold is not the reversal of its current rows: " + e[0])
+                    break
+                back = conv.canon_scaffold(conv.from_real_scaffold(r.reverse()))
+                if back["rows"] != want:
+                    out.oracle_fail("object-histories", inp, "reversing twice does not give back the current rows")
+                    break
+                if len(objs) < 3:
+                    objs.append(r)
+            elif op == "add_row":
+                k += 1; target.add_row(rand_row(k))
+            elif op == "append":
+                k += 1; target.append_scaffold(Scaffold("o", [rand_row(k)]), rng.choice([None, Gap(200, "scaffold")]))
+            elif op == "setrow" and target.rows:
+                k += 1; target.rows[rng.randrange(len(target.rows))] = rand_row(k)
+            elif op == "pop" and len(target.rows) > 1:
+                target.rows.pop(rng.choice([0, -1]))
+
+
 def search(ctx, broken):
     new = [f for f in ctx.out.oracle_failures if not f.get("finding")]
     return min(new, key=lambda f: len(str(f["input"]))) if new else None
